@@ -8,6 +8,7 @@
 //
 
 #include "thread.h"
+#include "verif.h"
 
 void
 nni_mtx_init(nni_mtx *mtx)
@@ -64,6 +65,14 @@ nni_cv_until(nni_cv *cv, nni_time until)
 		return (NNG_EAGAIN);
 	}
 
+#ifdef NNG_VERIF
+	if (nni_verif.clock != NULL) {
+		// Virtual time: a short real wait, then report a wake-up so
+		// that the caller re-examines the (virtual) clock.
+		(void) nni_plat_cv_until(cv, nni_verif_real_clock() + 1);
+		return (0);
+	}
+#endif
 	return (nni_plat_cv_until(cv, until));
 }
 
